@@ -107,7 +107,7 @@ def random_layer(ctx, ncases):
         else:
             group = None
         where = eg.expr('bool', 2) if rng.chance(1, 2) else None
-        if explicit and rng.chance(1, 3):
+        if explicit and rng.chance(2, 3):
             # an invisible key that looks like a visible key expression but differs in a literal: a key of its own
             cands = [t.expression for t in targets if not isinstance(t.expression, ast.Column) and t.name and t.name.startswith('k')]
             if cands:
@@ -116,7 +116,7 @@ def random_layer(ctx, ncases):
                     group = ast.GroupBy(list(group.columns) + [near], group.having)
                     ctx.count('near-copy-key')
         frm = ast.Table('t')
-        if rng.chance(1, 4):
+        if rng.chance(1, 2):
             # the same statement over a FROM subquery delivering the table: invisible keys are subquery columns
             frm = ast.Select([ast.Target(ast.Column(n_), None) for n_, t_ in gen_sql.STD_SCHEMA], ast.Table('t'), None, None, None, None, None, None)
             ctx.count('from-subquery')
